@@ -3,7 +3,9 @@
     requestcontext.New + Request().  This is a COPY of the corresponding definitions and lemmas of
     coq/C09/Model.v and coq/C09/Proofs.v (same author, state of 2026-10-01), kept here so that C13 does
     not break when C09's files are edited by their new owner.  C13 uses them for services without
-    trusted proxies only (every peer untrusted: [strip false]). *)
+    trusted proxies only (every peer untrusted: [strip false]) and, in [view_tp], for X-Forwarded-Uri
+    values that url.Parse accepts; the fall-back for a value it rejects (used as received since fix:
+    d3f6cd7) is NOT modelled here — unreachable under [wf_lreqb] and never generated. *)
 From HV Require Import Base.Prelude.
 Open Scope string_scope.
 
@@ -128,7 +130,7 @@ Record view := {
 }.
 
 Section Oracle.
-  (** url.Parse on an X-Forwarded-Uri value: [Some (EscapedPath(), Query().Encode())], [None] on error *)
+  (** url.Parse on an X-Forwarded-Uri value: [Some (EscapedPath(), query)], [None] on error (the query component is chosen by the caller: C13/Model.v [parse_forwarded_uri]; since fix: f446e16 the RawQuery as sent) *)
   Variable parse_uri : string -> option (string * string).
 
   Definition actual_scheme (c : conn) : string := if c_tls c then "https" else "http".
